@@ -4,7 +4,7 @@ set_option linter.unusedSectionVars false
 namespace Context
 open Py
 
-variable {K V P : Type} [DecidableEq K]
+variable {K V P : Type} [DecidableEq K] [DecidableEq P]
 
 theorem reset_ok {α : Type} (s s' : ContextVars.State α) (c : Nat) (t : ContextVars.Token α)
     (h : ContextVars.reset s c t = .ok s') :
